@@ -96,7 +96,9 @@ def main(argv, tier):
         target = meta.get("breaks_property")
         entry = {"breaks_property": target, "caught_by": caught, "silent": clean, "machinery_error": broken,
                  "target_check_catches": (target in caught) if target else None, "tier": tier, "mode": mode,
-                 "repo_head": head, "first_observation": notes, "wall_s": round(time.time() - t0, 1)}
+                 "repo_head": head, "first_observation": notes, "wall_s": round(time.time() - t0, 1),
+                 # every property's check was run in this pass (not a --props / --target-only partial run)
+                 "complete": not (props or (target_only and target))}
         with LOCK:
             if (props or target_only) and name in results and not results[name].get("error"):
                 # partial run: merge into the existing row
